@@ -19,6 +19,10 @@ def const_templates():
         'remneg': Bin('%', L(7), Bin('-', L(0), L(2))),
         'divneg': Bin('/', L(7), Bin('-', L(0), L(2))),
         'mix': Bin('-', Bin('*', L(6), L(7)), Bin('/', L(100), L(7))),
+        'mul_beyond_i32': Bin('*', L(3000000), L(1000)),
+        'sq_beyond_i32': Bin('*', L(70000), L(70000)),
+        'add_beyond_i32': Bin('+', L(2000000000), L(2000000000)),
+        'sub_beyond_i32': Bin('-', Bin('-', L(0), L(2000000000)), L(2000000000)),
     }
     for name, e in forms.items():
         body = [Let('r', I64, e), Return(Bin('+', Var('r', I64), X))]
